@@ -193,13 +193,14 @@ def ext_default(name, args, index, ret_kind):
 
 
 class Obj:
-    __slots__ = ("base", "size", "data", "init", "live", "name", "kind", "ref")
+    __slots__ = ("base", "size", "data", "init", "live", "name", "kind", "ref", "pmask")
 
     def __init__(self, base, size, name, kind, ref=None):
         self.base = base
         self.size = size
         self.data = bytearray(size)
         self.init = bytearray(size)
+        self.pmask = bytearray(size)  # 1 = byte written by a ptr-typed store (address dependent)
         self.live = True
         self.name = name
         self.kind = kind
@@ -313,6 +314,8 @@ class Machine:
                     elif isinstance(part, tuple) and part[0] is ir.ptr:
                         addr = self.address_of_name(part[1])
                         obj.data[pos : pos + self.ptr_size] = self._int_bytes(addr, self.ptr_size)
+                        for i in range(pos, pos + self.ptr_size):
+                            obj.pmask[i] = 1
                         pos += self.ptr_size
                     else:
                         raise Unsupported("initialiser part %r" % (part,))
@@ -384,8 +387,10 @@ class Machine:
         if obj.kind == "literal":
             raise Undef("store into literal data")
         obj.data[off : off + len(raw)] = raw
+        isptr = 1 if ty is ir.ptr else 0
         for i in range(off, off + len(raw)):
             obj.init[i] = 1
+            obj.pmask[i] = isptr
 
     def copy(self, dst, src, n):
         if n == 0:
@@ -400,6 +405,7 @@ class Machine:
         init = bytes(sobj.init[soff : soff + n])
         dobj.data[doff : doff + n] = data
         dobj.init[doff : doff + n] = init
+        dobj.pmask[doff : doff + n] = bytes(sobj.pmask[soff : soff + n])
 
     # -- values ------------------------------------------------------------
     def _literal_obj(self, ins):
@@ -692,11 +698,18 @@ class Machine:
         obs = {"ret": _obsval(ret)}
         g = {}
         for name, obj in self.globals.items():
-            g[name] = bytes(obj.data).hex()
+            g[name] = _hex_masked(obj)
         obs["globals"] = g
-        obs["buffers"] = [bytes(o.data).hex() for o in self.buffers]
+        obs["buffers"] = [_hex_masked(o) for o in self.buffers]
         obs["trace"] = [[n, [_obsval(a) for a in args]] for n, args in self.trace]
         return obs
+
+
+def _hex_masked(obj):
+    h = bytes(obj.data).hex()
+    if not any(obj.pmask):
+        return h
+    return "".join("??" if obj.pmask[i] else h[2 * i : 2 * i + 2] for i in range(obj.size))
 
 
 def _obsval(v):
@@ -756,12 +769,19 @@ def merge_layouts(a, b):
     return res
 
 
-def _mask_hex(x, y):
+def _mask_hex(x, y, group=8):
     if x == y:
         return x
+    n = len(x) // 2
+    bad = [x[2 * i : 2 * i + 2] != y[2 * i : 2 * i + 2] for i in range(n)]
     out = []
-    for i in range(0, len(x), 2):
-        out.append(x[i : i + 2] if x[i : i + 2] == y[i : i + 2] else "??")
+    for i in range(n):
+        g0 = i - i % group
+        # a byte that differs between the layouts taints its whole aligned pointer-sized group
+        if any(bad[g0 : g0 + group]):
+            out.append("??")
+        else:
+            out.append(x[2 * i : 2 * i + 2])
     return "".join(out)
 
 
